@@ -211,6 +211,8 @@ pub fn apply_change_to_db_try_fix_conflicts(
 pub fn unwatch_key(key: &String, sender: &Sender<String>, db: &Database) -> Response {
     // Filter the list in place under one write lock: copying it, filtering the copy and
     // writing the copy back dropped every subscription registered in between
+    #[cfg(nundb_verif)]
+    crate::verif_hooks::yield_point("watchers.write");
     let mut watchers = db.watchers.map.write().expect("db.watchers.map.lock");
     let senders = watchers.entry(key.clone()).or_insert_with(Vec::new);
     log::debug!("Senders before unwatch {:?}", senders.len());
